@@ -39,7 +39,7 @@ pub struct Pre {
 }
 
 /// (re-stored bundled graph, same-length sibling with one constant changed)
-fn restored_graphs() -> Result<&'static (Vec<u8>, Vec<u8>), String> {
+pub fn restored_graphs() -> Result<&'static (Vec<u8>, Vec<u8>), String> {
     static G: std::sync::OnceLock<Result<(Vec<u8>, Vec<u8>), String>> = std::sync::OnceLock::new();
     G.get_or_init(|| {
         use rln::circuit::iden3calc::graph::Node;
@@ -149,7 +149,7 @@ impl Property for C05 {
     }
     fn rule(&self) -> String {
         "46-element input assignments (identitySecret, userMessageLimit, messageId, 20 path elements, 20 binary path indices, x, externalNullifier) with values at 64-bit limb boundaries 2^(64k)±{0,1,2}, 2^16±1, within 70000 of p and of p/2, boundary-weighted and uniform; messageId/limit ~70% inside the circuit's range plus its edges (difference exactly 2^16, 2^16+1, equal, messageId >= 2^16); \
-         the complete 5844-element vector of zerokit's graph evaluator is compared (sha256 of the decimal rendering, full vector on mismatch) with the vector circom's own generated calculator (rln.wasm under node) computes; assignments the reference rejects are only counted; evaluation is repeated and the named inputs are supplied in a generated order; 40% of the cases are preceded, on the same thread, by a valid evaluation of a related assignment (x and/or external nullifier changed) and 0..11 rejected evaluations carrying the case's own values plus one malformed signal, a quarter of these also by an evaluation handed a damaged graph file (empty node record / cut in half / cut 3 bytes short / header only; its failure is contained) — the result must not depend on that history; a quarter of those cases evaluate a same-length sibling of the graph file (one constant deep in the node section changed) first and then the bundled graph as re-stored by zerokit's own serializer. \
+         the complete 5844-element vector of zerokit's graph evaluator is compared (sha256 of the decimal rendering, full vector on mismatch) with the vector circom's own generated calculator (rln.wasm under node) computes; assignments the reference rejects are only counted; evaluation is repeated and the named inputs are supplied in a generated order; 40% of the cases are preceded, on the same thread, by a valid evaluation of a related assignment (x and/or external nullifier changed) and 0..11 rejected evaluations carrying the case's own values plus one malformed signal, a quarter of these also by an evaluation handed a damaged graph file (empty node record / cut in half / cut 3 bytes short / header only; its failure is contained) — the result must not depend on that history; a quarter of those cases evaluate a same-length sibling of the graph file (one constant deep in the node section changed) first and then the bundled graph as re-stored by zerokit's own serializer (half of these load both, one after the other, into one caller buffer: same address and length, other content). \
          non-trivial = accepted by the reference and some input on a limb boundary or within 70000 of p or p/2; distinct by case content".into()
     }
     fn level(&self) -> &'static str {
@@ -270,6 +270,8 @@ impl Property for C05 {
         // the graph file used for the compared evaluation: the bundled one, or (sibling_graph) the
         // bundled graph re-stored by zerokit's serializer, evaluated right after a same-length sibling
         let mut gbytes: &[u8] = graph_bytes();
+        let mut reused = false;
+        let mut reused_buf: Vec<u8> = vec![];
         if c.pre.map(|p| p.sibling_graph).unwrap_or(false) {
             match restored_graphs() {
                 Ok((g0, g1)) => {
@@ -286,12 +288,25 @@ impl Property for C05 {
                     let _ = guarded(|| rln::circuit::calculate_rln_witness(named_inputs(&c.w), g1));
                     // the target alternates between the re-stored graph and the bundled file itself
                     gbytes = if c.order & 1 == 0 { g0 } else { graph_bytes() };
+                    // every other such case: the sibling and then the target are loaded into ONE caller
+                    // buffer (a graph file re-read into the same allocation): same address, same length,
+                    // other content
+                    if c.order & 2 != 0 && g0.len() == g1.len() {
+                        o.label("sibling-graph-first/same-buffer");
+                        reused_buf.extend_from_slice(g1);
+                        let _ = guarded(|| rln::circuit::calculate_rln_witness(named_inputs(&c.w), &reused_buf[..]));
+                        reused_buf.copy_from_slice(g0);
+                        reused = true;
+                    }
                 }
                 Err(e) => {
                     vfail!(o, "{e}");
                     return o;
                 }
             }
+        }
+        if reused {
+            gbytes = &reused_buf[..];
         }
         // zerokit's evaluator, inputs in a generated order, evaluated twice
         let mut named = named_inputs(&c.w);
